@@ -73,4 +73,24 @@ def stab : Bool → Ty → Bool
 
 def kindStable (t : Ty) : Bool := stab true t
 
+/-- `sema.Type.Equal`: structural (types are printed in canonical form), except that
+    `IntersectionType.Equal` compares the *effective* intersection sets (same size, one a subset of the
+    other), so `{RJ}` equals `{RI, RJ}` when `RJ: RI`.  The static types' `Equal` compares the listed
+    member sets, i.e. it is structural equality `==` (known finding `static-equal-intersection-effective-set`). -/
+def semaEq : Ty → Ty → Bool
+  | .inter a, .inter b =>
+    let sa := (interSet a).eraseDups
+    let sb := (interSet b).eraseDups
+    sa.length == sb.length && subset sa sb
+  | .opt a, .opt b => semaEq a b
+  | .varArr a, .varArr b => semaEq a b
+  | .constArr a n, .constArr b m => n == m && semaEq a b
+  | .dict k v, .dict k' v' => semaEq k k' && semaEq v v'
+  | .ref au a, .ref au' b => au == au' && semaEq a b
+  | .fn v p r, .fn v' p' r' => v == v' && semaEq p p' && semaEq r r'
+  | .consT t r, .consT t' r' => semaEq t t' && semaEq r r'
+  | .cap a, .cap b => semaEq a b
+  | .range a, .range b => semaEq a b
+  | a, b => a == b
+
 end Verif.Model.Types
